@@ -11,6 +11,7 @@ import (
 	"io/ioutil"
 	"os"
 	"path/filepath"
+	"regexp"
 	"runtime/debug"
 	"sort"
 	"strconv"
@@ -121,7 +122,9 @@ type statsFile struct {
 	Assumptions  []string          `json:"assumptions"`
 	Engines      []string          `json:"engines"`
 	Findings     []string          `json:"known_finding_lines"`
-	Exhaustive   bool              `json:"exhaustive,omitempty"`
+	// Unconfirmed: verdicts that rested on a deadline and did not come back when the case was executed again
+	Unconfirmed []string `json:"unconfirmed_deadline_verdicts,omitempty"`
+	Exhaustive  bool     `json:"exhaustive,omitempty"`
 }
 
 // Collector accumulates statistics of a run
@@ -414,6 +417,32 @@ func RunProperty(t *testing.T, spec *Spec) {
 		if err == nil {
 			return
 		}
+		if _, inc := err.(*Inconclusive); !inc && deadlineVerdict(err) {
+			// the verdict rests on a deadline ("did not arrive within 15s"): a case is plain data, so it is executed
+			// again — a stall caused by the code reproduces, one caused by a starved machine does not. Only a verdict
+			// that comes back counts; the others are listed in evidence, never reported as violations.
+			first := err
+			err = nil
+			for i := 0; i < 2; i++ {
+				time.Sleep(time.Second)
+				if again := safeRun(spec, cse, &CaseStats{}); again != nil {
+					if _, inc2 := again.(*Inconclusive); !inc2 {
+						err = fmt.Errorf("%v (seen again when the case was re-executed; first: %v)", again, first)
+						break
+					}
+				}
+			}
+			if err == nil {
+				col.mu.Lock()
+				col.sf.Inconclusive++
+				col.sf.Counters["deadline_verdicts_not_reproduced"]++
+				if len(col.sf.Unconfirmed) < 5 {
+					col.sf.Unconfirmed = append(col.sf.Unconfirmed, first.Error())
+				}
+				col.mu.Unlock()
+				return
+			}
+		}
 		if _, inc := err.(*Inconclusive); inc {
 			col.mu.Lock()
 			col.sf.Inconclusive++
@@ -438,6 +467,11 @@ func RunProperty(t *testing.T, spec *Spec) {
 		rt.Fatalf("property %s violated: %v\ncase: %s", spec.ID, err, string(cjs))
 	})
 }
+
+var deadlineRe = regexp.MustCompile(`(?i)stall|stuck|wedged|did not (arrive|drain|return|park|become)|never (ended|arrived|delivered|became|reached)|within \d+ ?s|in \d+ ?s\b|\(\d+s\)|timed? ?out`)
+
+// deadlineVerdict tells whether an oracle's verdict rests on a deadline having passed
+func deadlineVerdict(err error) bool { return err != nil && deadlineRe.MatchString(err.Error()) }
 
 // helper generators ------------------------------------------------------------------------------------------
 
